@@ -86,6 +86,24 @@ def derive(impl, p, how):
     raise ValueError(how)
 
 
+FRACS_EXACT = [0.5, 0.123456, 2.0 ** -21, 0.1]     # second fractions; 2^-21 s is below a microsecond and exact in binary
+
+
+def frac_spellings(kind, inst, offsets, frac):
+    """Descriptors denoting inst + frac seconds in the seconds-decimal form. Whole-minute offset changes never touch
+    the seconds field, so comparison, hashing and re-zoning of these are exact for ANY fraction."""
+    c = M.cal(kind)
+    out = []
+    for z in offsets:
+        off = z[0] * 60 + z[1]
+        dn, tod = divmod(inst + off * 60, 86400)
+        h, r = divmod(tod, 3600)
+        mi, s = divmod(r, 60)
+        for rep in REPS:
+            out.append((_desc(c, rep, dn, ["hmsf", h, mi, s, frac], z), True))
+    return out
+
+
 def cluster(kind, base, tier):
     """[(desc, derivation or None, exact)] for one base instant."""
     out = []
@@ -105,6 +123,9 @@ def cluster(kind, base, tier):
             for desc, exact in spellings(kind, inst, OFFSETS_BIG, reps=["cal", "week"], forms=False):
                 out.append((desc, None, exact))
         if delta == 0:
+            for fr in (FRACS_EXACT[2:] if quick else FRACS_EXACT):
+                for desc, exact in frac_spellings(kind, inst, OFFSETS_EXACT[:3] + OFFSETS_BIG[:1], fr):
+                    out.append((desc, None, exact))
             # derived operands from a few spellings of the base instant
             for desc, exact in spellings(kind, inst, [[0, 0]] if quick else [[0, 0], [-5, -30]], reps=["cal", "ord"]):
                 for how in DERIVATIONS:
